@@ -255,3 +255,65 @@ package mvp6_2
 //@   ensures len(u.wu.ctx.Transaction) == 0
 //@   assigns u.cu.pendingConditionalBranch, u.wu.ctx.Registers[*], u.wu.ctx.Transaction
 // ---- END generated by gen_bu.py
+
+// ---- BEGIN generated by gen_cu.py: control unit dispatch (C04)
+// The dispatch decision of the control unit. An instruction is pushed to the
+// execute bus only (a) without any RAW/WAW/WAR hazard on the scoreboard, or
+// (b) with exactly one RAW hazard whose register is forwarded: the receiver
+// records that register (a non-zero register it reads) and shares a fresh
+// channel with an instruction pushed in the previous cycle that writes it.
+// Setting up a forward touches the receive side (Receiver, ForwardRegister)
+// of no other in-flight instruction (F23). A pushed instruction is entered
+// in the scoreboard exactly once; a refused one leaves the scoreboard alone.
+//@ spec func cuWired(u *controlUnit, ctx *risc.Context) bool = u != nil && u.outBus != nil && u.pushedRunnersInCurrentCycle != nil && risc.wfBoard(ctx) && risc.smallBoard(ctx) \
+//@    && (forall p *risc.InstructionRunnerPc :: p in u.pushedRunnersInPreviousCycle ==> p != nil && p.Runner != nil) \
+//@    && (forall i :: 0 <= i && i < len(u.skippedInCurrentCycle) ==> u.skippedInCurrentCycle[i].Runner != nil)
+
+// An instruction may overtake the instructions skipped earlier in this cycle
+// only if it has no RAW, WAW or WAR conflict (on a non-zero register) with any
+// of them: "no hazard reported" implies there is none.
+//@ spec func noConflict(a risc.InstructionRunner, s risc.InstructionRunner) bool = forall r risc.RegisterType :: r != risc.Zero ==> !(risc.readCount(a, r) > 0 && risc.writeCount(s, r) > 0) && !(risc.writeCount(a, r) > 0 && (risc.writeCount(s, r) > 0 || risc.readCount(s, r) > 0))
+//@ func (*controlUnit).isDataHazardWithSkippedRunners
+//@   requires u != nil && runner != nil && runner.Runner != nil && (forall i :: 0 <= i && i < len(u.skippedInCurrentCycle) ==> u.skippedInCurrentCycle[i].Runner != nil)
+//@   ensures !result ==> (forall i :: 0 <= i && i < len(u.skippedInCurrentCycle) ==> noConflict(runner.Runner, u.skippedInCurrentCycle[i].Runner))
+//@   assigns nothing
+//@   loop 0: invariant forall i :: 0 <= i && i < _idx0 ==> noConflict(runner.Runner, u.skippedInCurrentCycle[i].Runner)
+//@   loop 1: invariant 0 <= _idx0 && _idx0 < len(u.skippedInCurrentCycle) && len(_range1) <= 2 && (forall r risc.RegisterType :: risc.occ(_range1, r) == risc.readCount(runner.Runner, r))
+//@   loop 1: invariant forall j :: 0 <= j && j < _idx1 && _range1[j] != risc.Zero ==> risc.writeCount(u.skippedInCurrentCycle[_idx0].Runner, _range1[j]) == 0
+//@   loop 2: invariant len(_range2) <= 2 && (forall r risc.RegisterType :: risc.occ(_range2, r) == risc.writeCount(u.skippedInCurrentCycle[_idx0].Runner, r))
+//@   loop 2: invariant forall k :: 0 <= k && k < _idx2 ==> _range2[k] != _range1[_idx1]
+//@   loop 3: invariant 0 <= _idx0 && _idx0 < len(u.skippedInCurrentCycle) && len(_range3) <= 2 && (forall r risc.RegisterType :: risc.occ(_range3, r) == risc.writeCount(runner.Runner, r))
+//@   loop 3: invariant forall r risc.RegisterType :: r != risc.Zero && risc.readCount(runner.Runner, r) > 0 ==> risc.writeCount(u.skippedInCurrentCycle[_idx0].Runner, r) == 0
+//@   loop 3: invariant forall j :: 0 <= j && j < _idx3 && _range3[j] != risc.Zero ==> risc.writeCount(u.skippedInCurrentCycle[_idx0].Runner, _range3[j]) == 0 && risc.readCount(u.skippedInCurrentCycle[_idx0].Runner, _range3[j]) == 0
+//@   loop 4: invariant len(_range4) <= 2 && (forall r risc.RegisterType :: risc.occ(_range4, r) == risc.writeCount(u.skippedInCurrentCycle[_idx0].Runner, r))
+//@   loop 4: invariant forall k :: 0 <= k && k < _idx4 ==> _range4[k] != _range3[_idx3]
+//@   loop 5: invariant len(_range5) <= 2 && (forall r risc.RegisterType :: risc.occ(_range5, r) == risc.readCount(u.skippedInCurrentCycle[_idx0].Runner, r))
+//@   loop 5: invariant risc.writeCount(u.skippedInCurrentCycle[_idx0].Runner, _range3[_idx3]) == 0
+//@   loop 5: invariant forall k :: 0 <= k && k < _idx5 ==> _range5[k] != _range3[_idx3]
+
+//@ func (*controlUnit).shouldUseForwarding
+//@   requires u != nil && runner != nil && runner.Runner != nil && (forall p *risc.InstructionRunnerPc :: p in u.pushedRunnersInPreviousCycle ==> p != nil && p.Runner != nil)
+//@   ensures result ==> result1 != nil && result1 in u.pushedRunnersInPreviousCycle && result2 != risc.Zero && risc.readCount(runner.Runner, result2) > 0 && risc.writeCount(result1.Runner, result2) > 0
+//@   ensures result ==> len(hazards) <= 1 && len(hazardTypes) <= 1 && hazardTypes[risc.ReadAfterWrite]
+//@   ensures !result ==> result1 == nil && result2 == risc.Zero
+//@   assigns nothing
+
+//@ func (*controlUnit).pushRunner
+//@   requires u != nil && u.outBus != nil && runner != nil && runner.Runner != nil && risc.wfBoard(ctx) && risc.smallBoard(ctx) && cycle < 9223372036854775807
+//@   ensures result == (len(old(u.outBus.buffer)) != u.outBus.bufferLength)
+//@   ensures result ==> len(u.outBus.buffer) == len(old(u.outBus.buffer)) + 1 && u.outBus.buffer[len(old(u.outBus.buffer))].t == runner
+//@   ensures result ==> (forall r risc.RegisterType :: r != risc.Zero ==> ctx.PendingReadRegisters[r] == old(ctx.PendingReadRegisters[r]) + risc.readCount(runner.Runner, r) && ctx.PendingWriteRegisters[r] == old(ctx.PendingWriteRegisters[r]) + risc.writeCount(runner.Runner, r))
+//@   ensures !result ==> (forall r risc.RegisterType :: ctx.PendingReadRegisters[r] == old(ctx.PendingReadRegisters[r]) && ctx.PendingWriteRegisters[r] == old(ctx.PendingWriteRegisters[r])) && len(u.outBus.buffer) == len(old(u.outBus.buffer))
+//@   ensures risc.wfBoard(ctx)
+//@   assigns u.outBus.buffer, u.outBus.buffer[*], ctx.PendingReadRegisters[*], ctx.PendingWriteRegisters[*]
+
+//@ func (*controlUnit).handleRunner
+//@   requires cuWired(u, ctx) && runner != nil && runner.Runner != nil && cycle < 9223372036854775807
+//@   nooverflow u.forwarding, u.blockedDataHazard
+//@   ensures push && runner.Receiver == old(runner.Receiver) ==> (forall r risc.RegisterType :: !old(risc.isRAW(ctx, runner.Runner, r)) && !old(risc.isWAW(ctx, runner.Runner, r)) && !old(risc.isWAR(ctx, runner.Runner, r)))
+//@   ensures push && runner.Receiver != old(runner.Receiver) ==> runner.ForwardRegister != risc.Zero && risc.readCount(runner.Runner, runner.ForwardRegister) > 0
+//@   ensures push && runner.Receiver != old(runner.Receiver) ==> (exists p *risc.InstructionRunnerPc :: p in u.pushedRunnersInPreviousCycle && p.Forwarder == runner.Receiver && risc.writeCount(p.Runner, runner.ForwardRegister) > 0)
+//@   ensures forall p *risc.InstructionRunnerPc :: p != runner && allocated(p) ==> p.Receiver == old(p.Receiver) && p.ForwardRegister == old(p.ForwardRegister)
+//@   ensures push ==> (forall r risc.RegisterType :: r != risc.Zero ==> ctx.PendingReadRegisters[r] == old(ctx.PendingReadRegisters[r]) + risc.readCount(runner.Runner, r) && ctx.PendingWriteRegisters[r] == old(ctx.PendingWriteRegisters[r]) + risc.writeCount(runner.Runner, r))
+//@   ensures !push ==> (forall r risc.RegisterType :: ctx.PendingReadRegisters[r] == old(ctx.PendingReadRegisters[r]) && ctx.PendingWriteRegisters[r] == old(ctx.PendingWriteRegisters[r]))
+// ---- END generated by gen_cu.py
